@@ -289,6 +289,37 @@ example : runDecl ⟨.set, 0, some 2, 5, false, false⟩ [.add ⟨0, 1⟩, .add 
 example : runDecl ⟨.list, 0, none, 5, true, false⟩ [.set 1 ⟨0, 1⟩, .set 2 ⟨2, 1⟩, .set 2 ⟨2, 2⟩, .unique]
     = some [.ok, .refused, .ok, .logical .t] := by decide
 
+/-! ## specialization among the simple types -/
+
+/-- Every value the runtime's type check accepts is assignable in EXPRESS: nothing ill-typed gets in.  `_partial`: the
+converse fails for exactly two shapes, an INTEGER value for a REAL base type and a BOOLEAN value for a LOGICAL base type
+(`C19_specialization_refused_witness`; finding `simple-specialization-refused`, probed on the real code). -/
+theorem C19_accepted_values_are_assignable_partial (x : Val) (base : Ty) (h : checkType x base = true) :
+    assignable x.ty base = true := by
+  unfold assignable
+  rw [(checkType_iff x base).mp h]
+  rfl
+
+theorem C19_assignable_iff_accepted_or_specialization (t base : Ty) :
+    assignable t base = true ↔
+      (conforms t base = true ∨ (t = .simple 0 ∧ base = .simple 2) ∨ (t = .simple 3 ∧ base = .simple 4)) := by
+  unfold assignable
+  simp only [Bool.or_eq_true]
+  constructor
+  · rintro (h | h)
+    · exact Or.inl h
+    · split at h <;> simp_all
+  · rintro (h | ⟨rfl, rfl⟩ | ⟨rfl, rfl⟩)
+    · exact Or.inl h
+    · exact Or.inr rfl
+    · exact Or.inr rfl
+
+/-- EXPRESS lets `INTEGER(1)` into a `LIST OF REAL` and `TRUE` into a `SET OF LOGICAL`; the runtime's `isinstance` check
+refuses both. -/
+theorem C19_specialization_refused_witness :
+    assignable (.simple 0) (.simple 2) = true ∧ checkType ⟨.simple 0, 1⟩ (.simple 2) = false ∧
+    assignable (.simple 3) (.simple 4) = true ∧ checkType ⟨.simple 3, 1⟩ (.simple 4) = false := by decide
+
 /-! ## the type check comes first -/
 
 /-- Statement order of the four mutators (regenerated from AggregationDataTypes.py): on every path
